@@ -17,7 +17,8 @@ try:
     r = subprocess.run(["/verif/run.sh", "--all", "--evidence-dir", "/tmp/benign_ev"], capture_output=True, text=True)
 finally:
     subprocess.run(["git", "-C", "/repo", "checkout", "--", "."], check=True)
-noisy = [l for l in r.stdout.splitlines() if l.startswith(("VIOLATION", "ANALYSIS-ERROR", "KNOWN-FINDING"))]
+noisy = [l for l in r.stdout.splitlines() if l.startswith(("VIOLATION", "ANALYSIS-ERROR"))]
+known = [l for l in r.stdout.splitlines() if l.startswith("KNOWN-FINDING")]  # (the same lines as on the unchanged tree: open finding F16)
 readme = open(os.path.join(dst, "README.md")).read() if os.path.exists(os.path.join(dst, "README.md")) else ""
 meta = {
     "id": sid,
@@ -33,6 +34,7 @@ meta = {
     ],
     "all_checks_exit": r.returncode,
     "lines": noisy[:10],
+    "known_finding_lines_as_on_the_unchanged_tree": [l[:120] for l in known],
     "silent": r.returncode == 0 and not noisy,
 }
 json.dump(meta, open(os.path.join(dst, "meta.json"), "w"), indent=1)
